@@ -35,6 +35,7 @@ def run(ctx):
     ctx.do(R.rule_sym1)
     ctx.do(MI.rule_invs1)
     ctx.do(MI.rule_invs2)
+    ctx.do(MI.rule_agg1)
     ctx.do(R.rule_wp1)
     ctx.do(SI.rule_gen_order)
     ctx.do(SI.rule_elt1)
